@@ -661,6 +661,50 @@ func ruleO4(c *an.Ctx) {
 		}
 		c.Check("O4", "constructed("+e.fn+" called from "+e.caller+")", fn.Pos(), has, fmt.Sprintf("callers: %v", got))
 	}
+	// the disabling conditions are EXPRESSIONS: a flag that reaches the call through a mapped call arrives
+	// wrapped (SplitExp, array, merge), so its producers are found only by enumerating the references inside
+	// the entry.  Every iteration over CallGraphNode.Disabled() in the prenode constructors passes an
+	// enumerator call (FindRefs / FindTypedRefs) on the element; taking the element itself for a reference
+	// (a type assertion to *RefExp) misses the wrapped ones and the call starts before its flag is known.
+	if mp := c.NeedFunc(pkgCore, "(*Node).makePrenodes"); mp != nil {
+		nLoops := 0
+		for _, m := range familyOf(p, mp, 2) {
+			for hd, body := range naturalLoops(m) {
+				// a loop whose element comes from Disabled()
+				overDisabled := false
+				for b := range body {
+					for _, in := range b.Instrs {
+						if ia, ok := in.(*ssa.IndexAddr); ok {
+							if cl, ok := an.Strip(ia.X).(*ssa.Call); ok && cl.Call.IsInvoke() && cl.Call.Method.Name() == "Disabled" {
+								overDisabled = true
+							}
+						}
+					}
+				}
+				if !overDisabled {
+					continue
+				}
+				nLoops++
+				enum := func(in ssa.Instruction) bool {
+					cl, ok := in.(*ssa.Call)
+					if !ok {
+						return false
+					}
+					if cl.Call.IsInvoke() {
+						return strings.HasPrefix(cl.Call.Method.Name(), "Find") && strings.Contains(cl.Call.Method.Name(), "Refs")
+					}
+					f := cl.Call.StaticCallee()
+					return f != nil && strings.HasPrefix(f.Name(), "Find") && strings.Contains(f.Name(), "Refs")
+				}
+				first := hd.Instrs[0]
+				w := an.Query{Fn: m, After: first, Target: func(in ssa.Instruction) bool { return in == first }, Barrier: enum,
+					BarrierEdge: func(from, to *ssa.BasicBlock) bool { return !body[to] }}.Find()
+				c.Check("O4", "disabling-conditions-enumerated-for-references@"+an.FnName(m), first.Pos(), w == nil,
+					"an iteration over the call's disabling conditions completes without enumerating the references inside the entry (FindRefs): a flag that arrives wrapped in a split/array/merge expression contributes no prenode and the job is submitted before the stage producing its disabling condition has finished; "+c.WitnessString(w))
+			}
+		}
+		c.Floor("O4", "loops over Disabled() in makePrenodes", nLoops, 1)
+	}
 	// fork roots: makePrenodesForBinding consults bind.Exp.FindRefs() too
 	mpb := c.NeedFunc(pkgCore, "(*Node).makePrenodesForBinding")
 	if mpb != nil {
